@@ -430,6 +430,44 @@ def run_c15(chk):
                 mfail.append((t, ops, i, "after namespace declarations were edited through the DOM the serialization is rejected by the "
                               "parser or denotes other content than the DOM reports", str(v) + " " + rec["status"]))
                 break
+    # ---- the DOCTYPE taken out (removed, replaced) while the document uses what it declares (monitor only): references to its
+    # general entities in content and in attribute values, attributes it supplies by default.  Recorded finding doctype-removal:
+    # with references left behind the serialization no longer parses; everything else must still hold
+    dtdocs = ["<!DOCTYPE r [<!ENTITY e 'v'>]><r>&e;</r>", "<!DOCTYPE r [<!ENTITY e 'v'>]><r a='x&e;'><k/></r>",
+              "<!DOCTYPE r [<!ENTITY e 'v'><!ATTLIST r d CDATA 'dv'>]><r>t&amp;<k/></r>", "<!DOCTYPE r SYSTEM 's.dtd'><r>t</r>",
+              "<!--c--><!DOCTYPE r [<!ATTLIST k xmlns:p CDATA 'urn:u1'>]><r><k/><k p:a='1' xmlns:p='urn:u1'/></r>"]
+    dtops = [["rm:h0:D"], ["cc:x", "rc:h0:N:D"], ["rm:h0:D", "ib:h0:D:R"], ["rm:h0:D", "ap:h0:D"], ["rm:h0:D", "ct:z", "ap:R:N"]]
+    import re as _re
+    dinit = lib.run_lines(lib.build_harness(), [lib.req("dom", t, "count(//*)") for t in dtdocs], timeout=120, per_line_resume=True)
+    dtl, dtm = [], []
+    for t, a in zip(dtdocs, dinit):
+        dump0 = D.split_records(a)[0].get("dump", "")
+        mD, mR = _re.search(r"h(\d+):Y\(", dump0), _re.search(r"h(\d+):E\(", dump0)
+        nh = 1 + max([int(x) for x in _re.findall(r"h(\d+):", dump0)] or [0])
+        if not (mD and mR):
+            continue
+        for tmpl in dtops:
+            ops = [o.replace("D", "h" + mD.group(1)).replace("R", "h" + mR.group(1)).replace("N", "h%d" % nh) for o in tmpl]
+            dtl.append(lib.req("dom", t, QUERIES, *ops))
+            dtm.append((t, ops))
+    dto = lib.run_lines(lib.build_harness(), dtl, timeout=600, per_line_resume=True)
+    for (t, ops), o in zip(dtm, dto):
+        for i, rec in enumerate(D.split_records(o)):
+            chk.count(["doctype-edit", t] + ops[:i], nontrivial=i > 0 and rec["status"].startswith("ok"))
+            v = rec["flags"].get("rt")
+            if rec["status"] in ("panic", "abort", "timeout"):
+                mfail.append((t, ops, i, "taking the DOCTYPE out of the document: " + rec["status"], rec["status"]))
+                break
+            if v is not None and v not in ("ok", "skip"):
+                left = _re.findall(r"%26([A-Za-z0-9]+)%3B", v)
+                if (v.startswith("BAD(serialization does not parse") and any(n not in ("amp", "lt", "gt", "apos", "quot") for n in left)
+                        and "doctype-removal" in findings):
+                    chk.known_finding("doctype-removal " + findings["doctype-removal"]["text"])
+                    break
+                mfail.append((t, ops, i, "after the DOCTYPE was taken out / put back the serialization is rejected by the parser or denotes "
+                              "other content than the DOM reports", str(v)))
+                break
+    chk.cov["doctype_edit_histories"] = len(dtl)
     chk.cov["namespace_edit_histories"] = len(nsc)
     chk.cov["default_edit_histories"] = len(dlines)
     # reach of the invariant THEOREM (Thm/C15Valid `document_stays_valid`): its hypothesis `docOK` - every item of the initial
